@@ -26,6 +26,9 @@ type c08Step struct {
 	// for the packet type and carries this status (GETDATA/GETUSER/GETPASS with a continuation, final
 	// statuses without one)
 	Status byte `json:"status,omitempty"`
+	// Replies > 1: the handler sends this many replies to the one request (a banner, then the prompt);
+	// each takes the next sequence number, and all of them count as sent
+	Replies int `json:"replies,omitempty"`
 }
 
 type c08Case struct {
@@ -61,6 +64,9 @@ func (m *c08Model) step(s c08Step) (dispatch bool, tag string) {
 	last := int(s.Seq)
 	if s.Reply && s.Seq < 255 {
 		last = int(s.Seq) + 1
+		if s.Replies > 1 {
+			last = int(s.Seq) + s.Replies
+		}
 	}
 	if s.Cont {
 		m.nextID++
@@ -131,6 +137,9 @@ func genC08(t *rapid.T) c08Case {
 			seq = 255
 		}
 		s.Seq = byte(seq)
+		if s.Reply && seq <= 249 && rapid.IntRange(0, 5).Draw(t, "several_replies") == 0 {
+			s.Replies = rapid.IntRange(2, 3).Draw(t, "replies")
+		}
 		c.Steps = append(c.Steps, s)
 		m.step(s)
 	}
@@ -171,6 +180,9 @@ func (h *c08Harness) handler(tag string) tq.Handler {
 				}
 			}
 			_, _ = resp.Reply(reply) // at sequence number 255 there is no number left for a reply
+			for k := 1; k < s.Replies; k++ {
+				_, _ = resp.Reply(reply)
+			}
 		}
 	})
 }
